@@ -26,7 +26,12 @@ def gen_keys(rng, kk, n):
         span = 256 ** b
         nblocks = (hi - lo + 1) // span
         base = lo + span * rng.randrange(nblocks)
-        return [base + x for x in rng.sample(range(span), min(n, span))]
+        seen = set()
+        while len(seen) < min(n, span):
+            seen.add(rng.randrange(span))
+        out = [base + x for x in seen]
+        rng.shuffle(out)
+        return out
     out = []
     for _ in range(n):
         if style == "small":
